@@ -54,21 +54,30 @@ class Case:
 # ---------------------------------------------------------------------------------------------
 
 
-def margin_negation(goal, m):
-    """A strengthened negation of `goal`: violated by at least m (for eq/le/lt shapes)."""
+def margin_negation(goal, m, _memo=None):
+    """A strengthened negation of `goal`: violated by at least m (for eq/le/lt shapes).  Memoised over the term DAG
+    (the definedness formulas of the extended-real model share sub-terms heavily)."""
+    if _memo is None:
+        _memo = {}
+    key = id(goal)
+    if key in _memo:
+        return _memo[key]
     op = goal.op
     M = tm.const(Fraction(m).limit_denominator(10 ** 9))
     if op == "and":
-        return tm.or_(*[margin_negation(a, m) for a in goal.args])
-    if op == "eq0":
+        r = tm.or_(*[margin_negation(a, m, _memo) for a in goal.args])
+    elif op == "eq0":
         d = goal.args[0]
-        return tm.or_(tm.ge(d, M), tm.le(d, tm.neg(M)))
-    if op in ("le0", "lt0"):
-        return tm.ge(goal.args[0], M)
-    if op == "not" and goal.args[0].op == "and":
+        r = tm.or_(tm.ge(d, M), tm.le(d, tm.neg(M)))
+    elif op in ("le0", "lt0"):
+        r = tm.ge(goal.args[0], M)
+    elif op == "not" and goal.args[0].op == "and":
         # goal = d1 or d2 or ... (an implication): every disjunct is violated, each with the margin
-        return tm.and_(*[margin_negation(tm.not_(l), m) for l in goal.args[0].args])
-    return tm.not_(goal)
+        r = tm.and_(*[margin_negation(tm.not_(l), m, _memo) for l in goal.args[0].args])
+    else:
+        r = tm.not_(goal)
+    _memo[key] = r
+    return r
 
 
 def _model_json(model):
@@ -253,6 +262,15 @@ def _run_case(case: Case):
                     elif r.status == "unknown":
                         rec["status"] = "undecided"
                         rec["reason"] = r.reason
+                        # No verdict within the budget.  A model of the *relaxed* encoding (every non-linear monomial and special function
+                        # opaque; found in seconds) is still a candidate input: if it violates the obligation on the real code by a clear
+                        # margin it is a genuine counterexample, wherever it came from; otherwise the obligation stays undecided.
+                        rl = smt.solve(h + [tm.not_(g.term)], timeout_s=min(case.timeout, 10.0), linearize=True, want_model=True)
+                        if rl.status == "sat":
+                            rr = _handle_sat(case, h, g, rl, relaxed=True)
+                            if rr["status"] == "violated":
+                                rec.update(rr)
+                                rec["found_by"] = "model of the relaxed (linearised) encoding after the full query timed out"
                     else:
                         rec.update(_handle_sat(case, h, g, r))
                     out["goals"].append(rec)
@@ -284,11 +302,13 @@ def _run_case(case: Case):
     return out
 
 
-def _handle_sat(case, hyps, g, r):
+def _handle_sat(case, hyps, g, r, relaxed=False):
     """Counterexample found: try a margin model first, then replay on the real code."""
     models = []
     # first choice: a counterexample on a coarse dyadic grid (robust against float rounding in the replay)
     try:
+        if relaxed:
+            raise RuntimeError("skip the extra full-encoding queries")
         fv = set()
         for h in hyps + [g.term]:
             fv |= tm.free_vars(h)
@@ -301,13 +321,13 @@ def _handle_sat(case, hyps, g, r):
                 models.append(_model_json(r0.model))
     except Exception:  # noqa: BLE001
         pass
-    if case.margin:
+    if case.margin and not relaxed:
         r2 = smt.solve(hyps + [margin_negation(g.term, case.margin)], timeout_s=min(case.timeout, 20.0),
                        families=case.families, ack_uf=case.ack_uf, tactic=case.tactic)
         if r2.status == "sat":
             models.append(_model_json(r2.model))
     models.append(_model_json(r.model))
-    n_exact = len(models)
+    n_exact = 0 if relaxed else len(models)
     # candidates near the solver's models that are exactly representable (any input that reproduces on
     # the real code is a genuine witness, wherever it came from)
     for base in list(models):
@@ -571,8 +591,11 @@ def summarize(prop, tier, seed, results, meta, wall):
         "wall_s": round(wall, 3),
         "violations": len(violations),
     }
-    os.makedirs(os.path.join(ROOT, "evidence"), exist_ok=True)
-    with open(os.path.join(ROOT, "evidence", prop + ".json"), "w") as f:
+    # (VERIF_EVIDENCE_DIR: scratch output for the seed-regression tool, which runs the checks against patched worktrees in parallel;
+    #  the registered commands never set it)
+    evdir = os.environ.get("VERIF_EVIDENCE_DIR") or os.path.join(ROOT, "evidence")
+    os.makedirs(evdir, exist_ok=True)
+    with open(os.path.join(evdir, prop + ".json"), "w") as f:
         json.dump(evidence, f, indent=1, default=str)
     for l in lines:
         print(l)
